@@ -24,7 +24,7 @@ class C16(scen.WorldProp):
                   "accompanies. non-trivial = at least one payload row with a call was rung")
 
     def cases(self, rng, tier):
-        n = 60 if tier == "quick" else 600
+        n = 240 if tier == "quick" else 2400
         for i in range(n):
             stage = rng.randint(4, 10)
             N = stage + rng.choice([0, 0, 1, 2]) if stage < 15 else stage
